@@ -758,6 +758,13 @@ func (x *Exec) convert(fr *Frame, v Value, from, to types.Type, p token.Pos) Val
 			if !signed && !val.t.isConst() {
 				notEncodable("float→unsigned conversion at %s", x.framePos(fr, p))
 			}
+			if val.t.op == OSToF && val.t.a[0].w == w {
+				// int → float64 → int: the identity below 2^53; that side condition is a proof obligation
+				// (checked like an unwinding bound), so the query stays free of floating point
+				y := val.t.a[0]
+				x.exactFloatObl(fr, y, p)
+				return VInt{y}
+			}
 			return VInt{mkFToInt(val.t, w)}
 		}
 	case VStr:
